@@ -59,10 +59,10 @@ Definition run_once (s : sexp) : sexp :=
     | Some tbl, Some x, Some fuel, Some o =>
       let Lg := language fuel tbl x in
       let Lg' := language (S fuel) tbl x in
-      L [ ofBool (check_enum (contains tbl x) (length Lg) o);
-          ofBool (nodupb prog_eqb o); ofBool (forallb (contains tbl x) o);
+      L [ ofBool (table_ok tbl && check_enum (member_of fuel tbl x) (length Lg) o);
+          ofBool (nodupb prog_eqb o); ofBool (forallb (member_of fuel tbl x) o);
           ofNat (length o); ofNat (length Lg); ofNat (length Lg');
-          A (first_false (contains tbl x) o 0); A (first_dup o 0);
+          A (first_false (member_of fuel tbl x) o 0); A (first_dup o 0);
           ofList sexp_of_prog (filter (fun p => negb (memb prog_eqb p o)) (firstn 5 (filter (fun p => negb (memb prog_eqb p o)) Lg))) ]
     | _, _, _, _ => bad_case
     end
@@ -129,9 +129,9 @@ Definition run_filtered (s : sexp) : sexp :=
     match table_of_sexp tb, nt_of_sexp st, asNat fu, asListOf prog_of_sexp rej, asListOf prog_of_sexp out with
     | Some tbl, Some x, Some fuel, Some rj, Some o =>
       let Lg := language fuel tbl x in
-      L [ ofBool (check_filtered (contains tbl x) Lg rj o);
+      L [ ofBool (table_ok tbl && check_filtered (member_of fuel tbl x) Lg rj o);
           ofBool (nodupb prog_eqb o);
-          A (first_false (fun p => contains tbl x p && accepted rj p) o 0);
+          A (first_false (fun p => member_of fuel tbl x p && accepted rj p) o 0);
           ofList sexp_of_prog (firstn 5 (filter (fun p => hereditarily rj p && negb (memb prog_eqb p o)) Lg));
           ofNat (length Lg); ofNat (length (filter (hereditarily rj) Lg)); ofNat (length (filter (accepted rj) Lg)) ]
     | _, _, _, _, _ => bad_case
@@ -148,8 +148,8 @@ Definition run_merged (s : sexp) : sexp :=
     match table_of_sexp tb, nt_of_sexp st, asNat fu, asListOf merge_of_sexp ms, asListOf prog_of_sexp out with
     | Some tbl, Some x, Some fuel, Some m, Some o =>
       let Lg := language fuel tbl x in
-      L [ ofBool (check_merged (contains tbl x) Lg m o);
-          ofBool (nodupb prog_eqb o); ofBool (forallb (contains tbl x) o);
+      L [ ofBool (table_ok tbl && check_merged (member_of fuel tbl x) Lg m o);
+          ofBool (nodupb prog_eqb o); ofBool (forallb (member_of fuel tbl x) o);
           ofBool (check_merged_prefix m 0 o);
           ofList sexp_of_prog (firstn 5 (filter (fun p => negb (memb prog_eqb p o) && negb (existsb (fun mm : nat * prog => contains_sub p (snd mm)) m)) Lg));
           ofNat (length Lg) ]
